@@ -311,7 +311,12 @@ def _degenerate(shapes, x0, y0, nx, ny):
         if (np.abs(U * U + V * V - 1.0) < 2e-10).any():
             return True
         ex, ey = G.extents(sh)
-        if (np.abs(np.abs(xe) - ex) < 1e-9).any() or (np.abs(np.abs(ye) - ey) < 1e-9).any():
+        # tangency is judged at the kernel's own scale: it works in unit-disk coordinates (pixel lengths divided
+        # by the semi-axes) with a 1e-10 'on the circle' tolerance, so for a large semi-axis a pixel edge that is
+        # 1e-9 px inside the tip of the ellipse is within that tolerance (a = 25: 4e-11 in disk units).  Confirmed
+        # to be the same root cause: the replay is silent with proposed_fixes/C01-ellipse-exact-vertex-on-ellipse.
+        if (np.abs(np.abs(xe) - ex) < max(1e-9, 2e-10 * ex)).any() \
+                or (np.abs(np.abs(ye) - ey) < max(1e-9, 2e-10 * ey)).any():
             return True
         # diagonals in unit-disk coordinates: distance of the segment's line from the origin, foot inside the segment
         du, dv = U[1:, 1:] - U[:-1, :-1], V[1:, 1:] - V[:-1, :-1]
